@@ -37,11 +37,16 @@ from prysm.propagation import Wavefront
 from prysm.x.optym.operators import SpatialGradient2D
 from prysm.x.dm import DM
 
+# accuracy demanded: K_TOL * eps * max(1, max|A|) per operator entry; measured honest error of the repaired tree
+# is <= 2.4e-3 of that over the whole quick scope (margin > 400x); the recorded defects deviate by O(0.1 .. 10)
 K_TOL = 2e3
 
-
-def par(n):
-    return 'odd' if n % 2 else 'even'
+ASSUMPTIONS = [
+    'a companion is called with the forward routine\'s own parameters (dx, efl, wavelength, Q, shift, mask, Lyot stop), the upstream gradient in place of the field and the shape of the forward INPUT as its sample-count argument',
+    'focal-plane masks and Lyot stops are ndarrays (Wavefront-valued masks already fail in the forward routines: "complex * Wavefront", "1 - Wavefront")',
+    'DM: square influence function and square Nout, rot = (0,0,0) (rotation excluded from the exactness claim), real upstream gradient (documented), actuator lattice inside the array as prysm places it',
+    'sum_of_2d_modes: real modes with real weights / upstream gradients, complex modes with complex ones',
+]
 
 
 # ---------------------------------------------------------------------------------------------
